@@ -1,25 +1,576 @@
 //! C14 — the definition-driven query, the game's dedicated module and the
 //! protocol-level query with the definition's parameters are observationally
-//! the same: same destination, same request bytes in the same order, same
-//! outcome (Ok / error kind) and the same key fields, under the same scripted
-//! server. Instances are generated from definitions.rs and
+//! the same. Instances are generated from definitions.rs and
 //! games/{valve,gamespy,quake,unreal2}.rs on every run (gen/generate.py).
 //!
-//! The *definition's* parameters (engine, gather settings, default port) are
-//! read from the real `GAMES` table at run time, not from parsed text: the
-//! protocol-level run is `valve::query(addr(ip, port or game.default_port),
-//! game.protocol's engine, game.request_settings as GatheringSettings)`.
+//! Two kinds of harness:
+//!
+//! * **argument harnesses** (`c14_args_*`, the whole table, quick tier): the real
+//!   dispatch code (`games::query::query`, the `game_query_mod!`-generated module
+//!   functions, the `GAMES` table, the settings conversions) is executed
+//!   symbolically with every *protocol-level* entry point replaced by a recording
+//!   stub. The assertion is on what reaches the protocol level: the generic path
+//!   must call the protocol function of the definition with exactly
+//!   `(ip, port or definition default)`, the definition's engine and the
+//!   definition's request settings; the module path must make a call that is
+//!   observationally equivalent. Since each protocol-level query is a
+//!   deterministic function of its arguments and of the server's behaviour,
+//!   equal arguments give equal requests and equal results *for every server
+//!   behaviour* - that is the compositional step, stated in the evidence.
+//!   The stub answers with an error of a symbolic kind, so the way each path passes
+//!   a failure on is covered too.
+//! * **network harnesses** (`c14_net_*`): the three real paths run against the
+//!   same scripted server on the network model (silent / info reply with symbolic
+//!   app id then silence / info + empty sections) and their send logs, outcomes
+//!   and key fields are compared. They confirm the composition for a seeded
+//!   selection of games and decide the default port of the proprietary
+//!   protocols, which lives inside their query function.
 #![allow(unused_imports)]
+#![allow(static_mut_refs)]
 
 use crate::common::*;
 use crate::entries::*;
 use crate::silent::*;
 use gamedig::games::minecraft::{self, LegacyGroup};
-use gamedig::protocols::types::Protocol;
+use gamedig::protocols::types::{ExtraRequestSettings, GatherToggle, ProprietaryProtocol, Protocol, TimeoutSettings};
 use gamedig::protocols::valve::{self, Engine, GatheringSettings};
+use gamedig::protocols::{gamespy, quake, unreal2};
 use gamedig::verif_hook::net::world;
-use gamedig::Game;
+use gamedig::{GDResult, Game};
 use std::net::{IpAddr, SocketAddr};
+
+// =========================================================================
+//  Recording stubs for the protocol level
+// =========================================================================
+
+#[derive(Clone, Copy, PartialEq, Eq, Debug)]
+pub enum Fun {
+    Valve,
+    Gs1,
+    Gs2,
+    Gs3,
+    Quake1,
+    Quake2,
+    Quake3,
+    Unreal2,
+    Savage2,
+    TheShip,
+    Ffow,
+    Jc2m,
+    Mindustry,
+    McJava,
+    McBedrock,
+    McLegacy16,
+    McLegacy14,
+    McLegacyB18,
+    McAuto,
+    Eco,
+}
+
+#[derive(Clone, Copy)]
+pub struct Call {
+    pub fun: Fun,
+    /// protocol-level functions take a socket address ...
+    pub addr: Option<SocketAddr>,
+    /// ... the proprietary game entry points take (ip, Option<port>)
+    pub ip: Option<IpAddr>,
+    pub port: Option<u16>,
+    pub engine: Option<Engine>,
+    pub valve_gs: Option<GatheringSettings>,
+    pub unreal2_gs: Option<unreal2::GatheringSettings>,
+    pub timeout_is_none: bool,
+    /// minecraft / eco request settings were passed
+    pub extra_is_none: bool,
+}
+
+pub static mut CALLS: [Option<Call>; 2] = [None, None];
+pub static mut N_CALLS: usize = 0;
+/// The error kind the stubs answer with (symbolic per harness).
+pub static mut ANSWER: Option<K> = None;
+
+fn record(c: Call) {
+    unsafe {
+        if N_CALLS < 2 {
+            CALLS[N_CALLS] = Some(c);
+        }
+        N_CALLS += 1;
+    }
+}
+
+fn blank(fun: Fun) -> Call {
+    Call {
+        fun,
+        addr: None,
+        ip: None,
+        port: None,
+        engine: None,
+        valve_gs: None,
+        unreal2_gs: None,
+        timeout_is_none: true,
+        extra_is_none: true,
+    }
+}
+
+/// Takes the single recorded call of a path and clears the log.
+pub fn take_call() -> Option<Call> {
+    unsafe {
+        let c = if N_CALLS == 1 { CALLS[0] } else { None };
+        CALLS = [None, None];
+        N_CALLS = 0;
+        c
+    }
+}
+
+fn err<T>() -> GDResult<T> {
+    let k = unsafe { ANSWER.clone() }.unwrap_or(K::PacketReceive);
+    Err(k.context(""))
+}
+
+pub fn stub_valve_query(
+    address: &SocketAddr,
+    engine: Engine,
+    gather_settings: Option<GatheringSettings>,
+    timeout_settings: Option<TimeoutSettings>,
+) -> GDResult<valve::Response> {
+    let mut c = blank(Fun::Valve);
+    c.addr = Some(*address);
+    c.engine = Some(engine);
+    // documented: None means GatheringSettings::default()
+    c.valve_gs = Some(gather_settings.unwrap_or(GatheringSettings::default()));
+    c.timeout_is_none = timeout_settings.is_none();
+    core::mem::forget(timeout_settings);
+    record(c);
+    // Only errors are answered: a stub-built `Ok(valve::Response)` handed back through the
+    // stubbed function made CBMC read junk in the `players` vector of the value inside
+    // `new_from_valve_response` (frees of an invalid pointer that do not exist natively -
+    // an artefact of the engine, root cause not found). What the module does with an Ok
+    // value is decided in C02 (game view) and C15.
+    err()
+}
+
+macro_rules! addr_stub {
+    ($name:ident, $fun:expr, $ret:ty) => {
+        pub fn $name(address: &SocketAddr, timeout_settings: Option<TimeoutSettings>) -> GDResult<$ret> {
+            let mut c = blank($fun);
+            c.addr = Some(*address);
+            c.timeout_is_none = timeout_settings.is_none();
+            core::mem::forget(timeout_settings);
+            record(c);
+            err()
+        }
+    };
+}
+addr_stub!(stub_gs1, Fun::Gs1, gamespy::one::Response);
+addr_stub!(stub_gs2, Fun::Gs2, gamespy::two::Response);
+addr_stub!(stub_gs3, Fun::Gs3, gamespy::three::Response);
+addr_stub!(stub_quake1, Fun::Quake1, quake::Response<quake::one::Player>);
+addr_stub!(stub_quake2, Fun::Quake2, quake::Response<quake::two::Player>);
+addr_stub!(stub_quake3, Fun::Quake3, quake::Response<quake::two::Player>);
+addr_stub!(stub_mc_bedrock, Fun::McBedrock, minecraft::BedrockResponse);
+
+pub fn stub_unreal2(
+    address: &SocketAddr,
+    gather_settings: &unreal2::GatheringSettings,
+    timeout_settings: Option<TimeoutSettings>,
+) -> GDResult<unreal2::Response> {
+    let mut c = blank(Fun::Unreal2);
+    c.addr = Some(*address);
+    c.unreal2_gs = Some(*gather_settings);
+    c.timeout_is_none = timeout_settings.is_none();
+    core::mem::forget(timeout_settings);
+    record(c);
+    err()
+}
+
+macro_rules! ip_stub {
+    ($name:ident, $fun:expr, $ret:ty) => {
+        pub fn $name(address: &IpAddr, port: Option<u16>, timeout_settings: Option<TimeoutSettings>) -> GDResult<$ret> {
+            let mut c = blank($fun);
+            c.ip = Some(*address);
+            c.port = port;
+            c.timeout_is_none = timeout_settings.is_none();
+            core::mem::forget(timeout_settings);
+            record(c);
+            err()
+        }
+    };
+}
+ip_stub!(stub_savage2, Fun::Savage2, gamedig::games::savage2::Response);
+ip_stub!(stub_theship, Fun::TheShip, gamedig::games::theship::Response);
+ip_stub!(stub_ffow, Fun::Ffow, gamedig::games::ffow::Response);
+ip_stub!(stub_jc2m, Fun::Jc2m, gamedig::games::jc2m::Response);
+
+pub fn stub_mindustry(
+    ip: &IpAddr,
+    port: Option<u16>,
+    timeout_settings: &Option<TimeoutSettings>,
+) -> GDResult<gamedig::games::mindustry::types::ServerData> {
+    let mut c = blank(Fun::Mindustry);
+    c.ip = Some(*ip);
+    c.port = port;
+    c.timeout_is_none = timeout_settings.is_none();
+    record(c);
+    err()
+}
+
+pub fn stub_mc_java(
+    address: &SocketAddr,
+    timeout_settings: Option<TimeoutSettings>,
+    request_settings: Option<minecraft::RequestSettings>,
+) -> GDResult<minecraft::JavaResponse> {
+    let mut c = blank(Fun::McJava);
+    c.addr = Some(*address);
+    c.timeout_is_none = timeout_settings.is_none();
+    c.extra_is_none = request_settings.is_none();
+    core::mem::forget((timeout_settings, request_settings));
+    record(c);
+    err()
+}
+
+pub fn stub_mc_auto(
+    address: &SocketAddr,
+    timeout_settings: Option<TimeoutSettings>,
+    request_settings: Option<minecraft::RequestSettings>,
+) -> GDResult<minecraft::JavaResponse> {
+    let mut c = blank(Fun::McAuto);
+    c.addr = Some(*address);
+    c.timeout_is_none = timeout_settings.is_none();
+    c.extra_is_none = request_settings.is_none();
+    core::mem::forget((timeout_settings, request_settings));
+    record(c);
+    err()
+}
+
+pub fn stub_mc_legacy(
+    group: LegacyGroup,
+    address: &SocketAddr,
+    timeout_settings: Option<TimeoutSettings>,
+) -> GDResult<minecraft::JavaResponse> {
+    let mut c = blank(match group {
+        LegacyGroup::V1_6 => Fun::McLegacy16,
+        LegacyGroup::V1_4 => Fun::McLegacy14,
+        LegacyGroup::VB1_8 => Fun::McLegacyB18,
+    });
+    c.addr = Some(*address);
+    c.timeout_is_none = timeout_settings.is_none();
+    core::mem::forget(timeout_settings);
+    record(c);
+    err()
+}
+
+/// Eco: the HTTP client constructor is the first thing the query does with the
+/// address; the stub records it and fails (nothing of ureq is encoded).
+pub fn stub_http_new<S: Into<String>>(
+    address: &SocketAddr,
+    timeout_settings: &Option<TimeoutSettings>,
+    http_settings: gamedig::verif_hook::HttpSettings<S>,
+) -> GDResult<gamedig::verif_hook::HttpClient> {
+    let mut c = blank(Fun::Eco);
+    c.addr = Some(*address);
+    c.timeout_is_none = timeout_settings.is_none();
+    core::mem::forget(http_settings);
+    record(c);
+    err()
+}
+
+/// Eco entry point, stubbed in every argument harness except Eco's own (keeps the
+/// whole HTTP stack - url, ureq, flate2, icu - out of the other harnesses).
+pub fn stub_eco_query(
+    address: &IpAddr,
+    port: Option<u16>,
+    timeout_settings: &Option<TimeoutSettings>,
+    extra_settings: Option<gamedig::games::eco::EcoRequestSettings>,
+) -> GDResult<gamedig::games::eco::Response> {
+    let mut c = blank(Fun::Eco);
+    c.ip = Some(*address);
+    c.port = port;
+    c.timeout_is_none = timeout_settings.is_none();
+    c.extra_is_none = extra_settings.is_none();
+    core::mem::forget(extra_settings);
+    record(c);
+    err()
+}
+
+// =========================================================================
+//  Argument harnesses
+// =========================================================================
+
+/// The definition's gather settings, converted by the documented rule (an
+/// unset member means the Valve default Try / Try / check on) - written here
+/// independently of `impl From<ExtraRequestSettings> for GatheringSettings`.
+fn definition_valve_settings(rs: &ExtraRequestSettings) -> GatheringSettings {
+    GatheringSettings {
+        players: rs.gather_players.unwrap_or(GatherToggle::Try),
+        rules: rs.gather_rules.unwrap_or(GatherToggle::Try),
+        check_app_id: rs.check_app_id.unwrap_or(true),
+    }
+}
+
+/// Where an engine's app ids are observable in a Valve query: the app-id check
+/// (only with check_app_id on), the The Ship layout switch (`== Engine::new(2400)`)
+/// and the Risk of Rain 2 rule fix (`== Engine::new(632_360)`). Two engines that agree on
+/// all of that cannot be told apart by any server.
+fn engines_equivalent(a: &Engine, b: &Engine, check_app_id: bool) -> bool {
+    if a == b {
+        return true;
+    }
+    match (a, b) {
+        (Engine::Source(_), Engine::Source(_)) => {
+            !check_app_id
+                && (*a == Engine::new(2400)) == (*b == Engine::new(2400))
+                && (*a == Engine::new(632_360)) == (*b == Engine::new(632_360))
+        }
+        _ => false,
+    }
+}
+
+#[cfg(kani)]
+fn symbolic_answer() {
+    let k: u8 = kani::any();
+    unsafe {
+        ANSWER = Some(match k & 3 {
+            0 => K::PacketReceive,
+            1 => K::PacketBad,
+            2 => K::BadGame,
+            _ => K::PacketUnderflow,
+        });
+    }
+}
+
+fn answer_kind() -> Option<K> { unsafe { ANSWER.clone() } }
+
+/// All protocol-level entry points are stubbed in every argument harness; the
+/// attribute list is the same for all of them.
+macro_rules! c14_args_harness {
+    ($name:ident, $body:block) => {
+        c14_args_harness!(@with $name, gamedig::games::eco::protocol::query_with_timeout_and_extra_settings, stub_eco_query, $body);
+    };
+    (@eco $name:ident, $body:block) => {
+        c14_args_harness!(@with $name, gamedig::http::HttpClient::new, stub_http_new, $body);
+    };
+    (@with $name:ident, $ecopath:path, $ecostub:path, $body:block) => {
+        #[cfg(kani)]
+        #[kani::proof]
+        #[kani::unwind(36)]
+        #[kani::stub(alloc::fmt::format, stub_format)]
+        #[kani::stub(gamedig::protocols::valve::protocol::query, stub_valve_query)]
+        #[kani::stub(gamedig::protocols::gamespy::protocols::one::protocol::query, stub_gs1)]
+        #[kani::stub(gamedig::protocols::gamespy::protocols::two::protocol::query, stub_gs2)]
+        #[kani::stub(gamedig::protocols::gamespy::protocols::three::protocol::query, stub_gs3)]
+        #[kani::stub(gamedig::protocols::quake::one::query, stub_quake1)]
+        #[kani::stub(gamedig::protocols::quake::two::query, stub_quake2)]
+        #[kani::stub(gamedig::protocols::quake::three::query, stub_quake3)]
+        #[kani::stub(gamedig::protocols::unreal2::protocol::query, stub_unreal2)]
+        #[kani::stub(gamedig::games::savage2::protocol::query_with_timeout, stub_savage2)]
+        #[kani::stub(gamedig::games::theship::protocol::query_with_timeout, stub_theship)]
+        #[kani::stub(gamedig::games::ffow::protocol::query_with_timeout, stub_ffow)]
+        #[kani::stub(gamedig::games::jc2m::protocol::query_with_timeout, stub_jc2m)]
+        #[kani::stub(gamedig::games::mindustry::query, stub_mindustry)]
+        #[kani::stub(gamedig::games::minecraft::protocol::query_java, stub_mc_java)]
+        #[kani::stub(gamedig::games::minecraft::protocol::query, stub_mc_auto)]
+        #[kani::stub(gamedig::games::minecraft::protocol::query_bedrock, stub_mc_bedrock)]
+        #[kani::stub(gamedig::games::minecraft::protocol::query_legacy_specific, stub_mc_legacy)]
+        #[kani::stub($ecopath, $ecostub)]
+        fn $name() $body
+    };
+}
+
+#[cfg(kani)]
+fn lookup(id: &str) -> &'static Game {
+    let game = gamedig::GAMES.get(id);
+    assert!(game.is_some(), "game id is in the table");
+    game.unwrap()
+}
+
+#[cfg(kani)]
+fn generic_call(game: &Game, ip: &IpAddr, port: Option<u16>) -> (Option<Call>, Option<K>) {
+    let r = gamedig::games::query::query(game, ip, port);
+    let k = match &r {
+        Ok(_) => None,
+        Err(e) => Some(e.kind.clone()),
+    };
+    core::mem::forget(r);
+    (take_call(), k)
+}
+
+/// Valve game with a module.
+#[cfg(kani)]
+pub fn args_valve(id: &str, module: Option<fn(&IpAddr, Option<u16>) -> GDResult<valve::game::Response>>) {
+    let game = lookup(id);
+    let ip = any_addr_v4().ip();
+    let port: Option<u16> = kani::any();
+    symbolic_answer();
+    let dest = SocketAddr::new(ip, port.unwrap_or(game.default_port));
+    let def_engine = match &game.protocol {
+        Protocol::Valve(e) => *e,
+        _ => {
+            assert!(false, "generator and table disagree: not a Valve entry");
+            return;
+        }
+    };
+    let def_gs = definition_valve_settings(&game.request_settings);
+
+    // generic path: exactly the definition's parameters
+    let (g, gk) = generic_call(game, &ip, port);
+    assert!(g.is_some(), "generic path makes exactly one protocol-level call");
+    let g = g.unwrap();
+    assert!(g.fun == Fun::Valve);
+    assert!(g.addr == Some(dest), "generic path: destination is (ip, port or the definition's default)");
+    assert!(g.engine == Some(def_engine), "generic path: engine of the definition");
+    assert!(g.valve_gs == Some(def_gs), "generic path: gather settings of the definition");
+    assert!(g.timeout_is_none);
+    assert!(gk == answer_kind(), "generic path: outcome passed on unchanged");
+
+    if let Some(f) = module {
+        let r = f(&ip, port);
+        let m = take_call();
+        assert!(m.is_some(), "module path makes exactly one protocol-level call");
+        let m = m.unwrap();
+        assert!(m.fun == Fun::Valve);
+        assert!(m.addr == Some(dest), "module path: same destination as the definition");
+        assert!(m.valve_gs == Some(def_gs), "module path: same gather settings as the definition");
+        assert!(
+            engines_equivalent(&m.engine.unwrap(), &def_engine, def_gs.check_app_id),
+            "module path: engine observationally equivalent to the definition's"
+        );
+        assert!(m.timeout_is_none);
+        assert!(kind_of(&r) == answer_kind(), "module path: outcome passed on unchanged");
+        core::mem::forget(r);
+    }
+    kani::cover!(port.is_none(), "default port used");
+    kani::cover!(answer_kind() == Some(K::BadGame), "protocol level answered BadGame");
+}
+
+/// Families whose protocol-level function takes (addr, timeout).
+#[cfg(kani)]
+pub fn args_addr<T>(id: &str, fun: Fun, module: Option<fn(&IpAddr, Option<u16>) -> GDResult<T>>) {
+    let game = lookup(id);
+    let ip = any_addr_v4().ip();
+    let port: Option<u16> = kani::any();
+    symbolic_answer();
+    let dest = SocketAddr::new(ip, port.unwrap_or(game.default_port));
+    let (g, gk) = generic_call(game, &ip, port);
+    assert!(g.is_some(), "generic path makes exactly one protocol-level call");
+    let g = g.unwrap();
+    assert!(g.fun == fun, "generic path: the definition's protocol");
+    assert!(g.addr == Some(dest), "generic path: destination is (ip, port or the definition's default)");
+    assert!(g.timeout_is_none && g.extra_is_none);
+    if fun == Fun::Unreal2 {
+        // the definition carries no Unreal 2 settings: the protocol's defaults
+        assert!(g.unreal2_gs == Some(unreal2::GatheringSettings::default()));
+    }
+    assert!(gk == answer_kind());
+    if let Some(f) = module {
+        let r = f(&ip, port);
+        let mk = kind_of(&r);
+        core::mem::forget(r);
+        let m = take_call();
+        assert!(m.is_some(), "module path makes exactly one protocol-level call");
+        let m = m.unwrap();
+        assert!(m.fun == fun, "module path: same protocol as the definition");
+        assert!(m.addr == Some(dest), "module path: same destination as the definition");
+        assert!(m.unreal2_gs == g.unreal2_gs, "module path: same gather settings as the generic path");
+        assert!(m.timeout_is_none && m.extra_is_none);
+        assert!(mk == answer_kind());
+    }
+    kani::cover!(port.is_none(), "default port used");
+}
+
+/// Proprietary games whose entry point takes (ip, Option<port>): the generic
+/// path hands the caller's ip and port on unchanged; the module's `query` makes
+/// the same call. (The default port inside the entry point is decided by the
+/// network harnesses below.)
+#[cfg(kani)]
+pub fn args_ip<T>(id: &str, fun: Fun, module: fn(&IpAddr, Option<u16>) -> GDResult<T>) {
+    let game = lookup(id);
+    let ip = any_addr_v4().ip();
+    let port: Option<u16> = kani::any();
+    symbolic_answer();
+    let (g, gk) = generic_call(game, &ip, port);
+    assert!(g.is_some(), "generic path makes exactly one protocol-level call");
+    let g = g.unwrap();
+    assert!(g.fun == fun, "generic path: the definition's protocol");
+    assert!(g.ip == Some(ip) && g.port == port && g.timeout_is_none);
+    assert!(gk == answer_kind());
+    let r = module(&ip, port);
+    let mk = kind_of(&r);
+    core::mem::forget(r);
+    let m = take_call();
+    assert!(m.is_some());
+    let m = m.unwrap();
+    assert!(m.fun == fun && m.ip == Some(ip) && m.port == port && m.timeout_is_none);
+    assert!(mk == answer_kind());
+    kani::cover!(port.is_none(), "default port used");
+}
+
+/// Eco: the HTTP client of both paths is created for (ip, port or the definition's default).
+#[cfg(kani)]
+pub fn args_eco(id: &str) {
+    let game = lookup(id);
+    let ip = any_addr_v4().ip();
+    let port: Option<u16> = kani::any();
+    unsafe {
+        ANSWER = Some(K::PacketReceive);
+    }
+    let dest = SocketAddr::new(ip, port.unwrap_or(game.default_port));
+    let (g, _gk) = generic_call(game, &ip, port);
+    assert!(g.is_some(), "generic path creates exactly one HTTP client");
+    let g = g.unwrap();
+    assert!(g.fun == Fun::Eco);
+    assert!(g.addr == Some(dest), "generic path: destination is (ip, port or the definition's default)");
+    let r = gamedig::games::eco::query(&ip, port);
+    core::mem::forget(r);
+    let m = take_call();
+    assert!(m.is_some());
+    assert!(m.unwrap().addr == Some(dest), "module path: same destination as the definition");
+    kani::cover!(port.is_none(), "default port used");
+}
+
+macro_rules! c14_args_valve {
+    ($name:ident, $id:expr, $module:ident) => {
+        c14_args_harness!($name, { args_valve($id, Some(gamedig::games::$module::query)) });
+    };
+}
+macro_rules! c14_args_valve_nomod {
+    ($name:ident, $id:expr) => {
+        c14_args_harness!($name, { args_valve($id, None) });
+    };
+}
+macro_rules! c14_args_addr {
+    ($name:ident, $id:expr, $fun:expr, $modcall:expr) => {
+        c14_args_harness!($name, { args_addr($id, $fun, Some($modcall)) });
+    };
+}
+macro_rules! c14_args_ip {
+    ($name:ident, $id:expr, $fun:expr, $modcall:expr) => {
+        c14_args_harness!($name, { args_ip($id, $fun, $modcall) });
+    };
+}
+macro_rules! c14_args_eco {
+    ($name:ident, $id:expr) => {
+        c14_args_harness!(@eco $name, { args_eco($id) });
+    };
+}
+
+fn mc_legacy16_mod(ip: &IpAddr, port: Option<u16>) -> GDResult<minecraft::JavaResponse> {
+    minecraft::query_legacy_specific(LegacyGroup::V1_6, ip, port)
+}
+fn mc_legacy14_mod(ip: &IpAddr, port: Option<u16>) -> GDResult<minecraft::JavaResponse> {
+    minecraft::query_legacy_specific(LegacyGroup::V1_4, ip, port)
+}
+fn mc_legacyb18_mod(ip: &IpAddr, port: Option<u16>) -> GDResult<minecraft::JavaResponse> {
+    minecraft::query_legacy_specific(LegacyGroup::VB1_8, ip, port)
+}
+fn mc_java_mod(ip: &IpAddr, port: Option<u16>) -> GDResult<minecraft::JavaResponse> {
+    minecraft::query_java(ip, port, None)
+}
+fn mindustry_mod(ip: &IpAddr, port: Option<u16>) -> GDResult<gamedig::games::mindustry::types::ServerData> {
+    gamedig::games::mindustry::query(ip, port, &None)
+}
+
+// =========================================================================
+//  Network harnesses (real paths on the network model)
+// =========================================================================
 
 pub const MAX_OBS: usize = 4;
 
@@ -91,8 +642,6 @@ pub fn all_to(o: &Obs, dest: &SocketAddr, first: &[u8]) -> bool {
     }
     ok
 }
-
-// ------------------------------------------------------------- Valve -----
 
 /// Well-formed Source A2S_INFO reply with the game-id extra field: the app id
 /// the client sees is the low 24 bits of the (symbolic) game id, so a match
@@ -187,7 +736,7 @@ pub fn run_protocol(game: &Game, c: &ValveCase, behaviour: u8) -> Obs {
             Engine::Source(None)
         }
     };
-    let gs: GatheringSettings = game.request_settings.clone().into();
+    let gs = definition_valve_settings(&game.request_settings);
     let addr = SocketAddr::new(c.ip, c.port.unwrap_or(game.default_port));
     arm_valve(behaviour, c.gid, c.counts, c.password);
     let r = valve::query(&addr, engine, Some(gs), None);
@@ -201,7 +750,7 @@ pub fn run_protocol(game: &Game, c: &ValveCase, behaviour: u8) -> Obs {
 
 #[cfg(kani)]
 pub fn run_module(
-    f: fn(&IpAddr, Option<u16>) -> gamedig::GDResult<valve::game::Response>,
+    f: fn(&IpAddr, Option<u16>) -> GDResult<valve::game::Response>,
     c: &ValveCase,
     behaviour: u8,
 ) -> Obs {
@@ -215,16 +764,8 @@ pub fn run_module(
     observe(k, key)
 }
 
-#[cfg(kani)]
-pub fn valve_covers(a: &Obs, c: &ValveCase, behaviour: u8) {
-    kani::cover!(c.port.is_none(), "default port used");
-    if behaviour >= 1 {
-        kani::cover!(a.outcome == Some(K::BadGame) || a.outcome.is_none() || a.outcome == Some(K::PacketReceive), "info reply was decoded");
-    }
-}
-
-/// Valve game with a dedicated module: generic == module == protocol-level.
-macro_rules! c14_valve {
+/// Valve game, the three real paths against the same scripted server.
+macro_rules! c14_net_valve {
     ($name:ident, $id:expr, $module:ident, $behaviour:expr) => {
         #[cfg(kani)]
         #[kani::proof]
@@ -232,9 +773,7 @@ macro_rules! c14_valve {
         #[kani::stub(alloc::fmt::format, stub_format)]
         #[kani::stub(core::str::from_utf8, stub_from_utf8)]
         fn $name() {
-            let game = gamedig::GAMES.get($id);
-            assert!(game.is_some());
-            let game = game.unwrap();
+            let game = lookup($id);
             let c = valve_case();
             let dest = SocketAddr::new(c.ip, c.port.unwrap_or(game.default_port));
             let p = run_protocol(game, &c, $behaviour);
@@ -243,125 +782,116 @@ macro_rules! c14_valve {
             assert!(same(&g, &p), "generic path differs from the protocol-level query with the definition's parameters");
             let m = run_module(gamedig::games::$module::query, &c, $behaviour);
             assert!(same(&m, &p), "module path differs from the protocol-level query with the definition's parameters");
-            valve_covers(&p, &c, $behaviour);
+            kani::cover!(c.port.is_none(), "default port used");
+            kani::cover!($behaviour < 1 || p.n >= 1, "info reply was consumed");
             core::mem::forget((p, g, m));
         }
     };
 }
 
-/// Valve table entry without a dedicated module: generic == protocol-level.
-macro_rules! c14_valve_nomod {
-    ($name:ident, $id:expr, $behaviour:expr) => {
-        #[cfg(kani)]
-        #[kani::proof]
-        #[kani::unwind(36)]
-        #[kani::stub(alloc::fmt::format, stub_format)]
-        #[kani::stub(core::str::from_utf8, stub_from_utf8)]
-        fn $name() {
-            let game = gamedig::GAMES.get($id);
-            assert!(game.is_some());
-            let game = game.unwrap();
-            let c = valve_case();
-            let dest = SocketAddr::new(c.ip, c.port.unwrap_or(game.default_port));
-            let p = run_protocol(game, &c, $behaviour);
-            assert!(all_to(&p, &dest, REQ_A2S_INFO));
-            let g = run_generic(game, &c, $behaviour);
-            assert!(same(&g, &p), "generic path differs from the protocol-level query with the definition's parameters");
-            valve_covers(&p, &c, $behaviour);
-            core::mem::forget((p, g));
-        }
-    };
-}
-
-// ----------------------------------- GameSpy / Quake / Unreal 2 / others ---
-
-fn out_of<T>(r: gamedig::GDResult<T>) -> Obs {
+fn out_of<T>(r: GDResult<T>) -> Obs {
     let k = kind_of(&r);
     core::mem::forget(r);
     observe(k, None)
 }
 
-/// Behaviour for the non-Valve families: 0 silent; 1 one datagram of two
-/// symbolic bytes, then silence (the same bytes for each path).
-fn arm_simple(behaviour: u8, junk: [u8; 2]) {
-    if behaviour >= 1 {
-        world().push_data(vec![junk[0], junk[1]]);
+/// Proprietary single-game protocols and Minecraft variants on a silent server:
+/// the game's own entry point sends the protocol's request to (ip, port or the
+/// definition's default) - this is where the default port that lives inside the
+/// entry point is compared with the table. (That the generic path hands ip and
+/// port to this entry point unchanged is decided by the argument harness.)
+macro_rules! c14_net_prop {
+    ($name:ident, $id:expr, $modcall:expr, $first:expr) => {
+        #[cfg(kani)]
+        #[kani::proof]
+        #[kani::unwind(36)]
+        #[kani::stub(alloc::fmt::format, stub_format)]
+        #[kani::stub(core::str::from_utf8, stub_from_utf8)]
+        fn $name() {
+            let game = lookup($id);
+            let ip = any_addr_v4().ip();
+            let port: Option<u16> = kani::any();
+            let dest = SocketAddr::new(ip, port.unwrap_or(game.default_port));
+            let m = out_of(($modcall)(&ip, port));
+            assert!(all_to(&m, &dest, $first), "the game's entry point does not send the protocol's request to the definition's default port");
+            kani::cover!(port.is_none(), "default port used");
+            core::mem::forget(m);
+        }
+    };
+}
+
+// ------------------------------------------------------------- Unreal 2 ----
+
+fn ustr(e: &mut Enc, s: &str) {
+    e.u8(s.len() as u8 + 1);
+    e.bytes(s.as_bytes());
+    e.u8(0);
+}
+
+/// A valid Unreal 2 server-info reply (player counts symbolic), then silence:
+/// what happens next depends on the gather settings each path uses.
+fn arm_unreal2_info(np: u32, mp: u32) {
+    let mut e = Enc::new();
+    e.u8(0x80).u8(0).u8(0).u8(0).u8(0).le32(1);
+    ustr(&mut e, "ip");
+    e.le32(7777).le32(7778);
+    ustr(&mut e, "Nm");
+    ustr(&mut e, "M");
+    ustr(&mut e, "G");
+    e.le32(np).le32(mp);
+    world().push_data(e.v);
+}
+
+fn u2_key(r: &GDResult<unreal2::Response>) -> Option<[u32; 6]> {
+    match r {
+        Ok(x) => Some([
+            x.server_info.num_players,
+            x.server_info.max_players,
+            x.players.players.len() as u32,
+            x.mutators_and_rules.rules.len() as u32,
+            0,
+            0,
+        ]),
+        Err(_) => Some([0; 6]),
     }
 }
 
-/// GameSpy 1-3, Quake 1-3, Unreal 2 games: generic == module == protocol fn.
-macro_rules! c14_simple {
-    ($name:ident, $id:expr, $module:ident, $protofn:ident, $first:expr, $behaviour:expr) => {
+/// Unreal 2 games against a server that answers the info request and then
+/// goes silent: generic == module == protocol-level with default settings.
+macro_rules! c14_net_unreal2 {
+    ($name:ident, $id:expr, $module:ident) => {
         #[cfg(kani)]
         #[kani::proof]
         #[kani::unwind(36)]
         #[kani::stub(alloc::fmt::format, stub_format)]
-        #[kani::stub(core::str::from_utf8, stub_from_utf8)]
+        #[kani::stub(core::slice::memchr::memchr, stub_memchr)]
+        #[kani::stub(encoding_rs::Encoding::decode, stub_encoding_decode)]
         #[kani::stub(std::io::_print, stub_print)]
         fn $name() {
-            let game = gamedig::GAMES.get($id);
-            assert!(game.is_some());
-            let game = game.unwrap();
+            let game = lookup($id);
             let ip = any_addr_v4().ip();
             let port: Option<u16> = kani::any();
-            let junk: [u8; 2] = kani::any();
+            let (np, mp): (u32, u32) = (kani::any(), kani::any());
             let dest = SocketAddr::new(ip, port.unwrap_or(game.default_port));
-            arm_simple($behaviour, junk);
-            let r = $protofn(&dest, None);
-            let p = observe(r, None);
-            assert!(all_to(&p, &dest, $first));
-            arm_simple($behaviour, junk);
+            arm_unreal2_info(np, mp);
+            let r = unreal2::query(&dest, &unreal2::GatheringSettings::default(), None);
+            let (k, key) = (kind_of(&r), u2_key(&r));
+            core::mem::forget(r);
+            let p = observe(k, key);
+            assert!(all_to(&p, &dest, REQ_UNREAL2_INFO));
+            arm_unreal2_info(np, mp);
             let g = out_of(gamedig::games::query::query(game, &ip, port));
             assert!(same(&g, &p), "generic path differs from the protocol-level query with the definition's parameters");
-            arm_simple($behaviour, junk);
-            let m = out_of(gamedig::games::$module::query(&ip, port));
+            arm_unreal2_info(np, mp);
+            let r = gamedig::games::$module::query(&ip, port);
+            let (k, key) = (kind_of(&r), u2_key(&r));
+            core::mem::forget(r);
+            let m = observe(k, key);
             assert!(same(&m, &p), "module path differs from the protocol-level query with the definition's parameters");
-            kani::cover!(port.is_none(), "default port used");
+            kani::cover!(p.n >= 2, "the info reply was decoded and a second request was sent");
             core::mem::forget((p, g, m));
         }
     };
-}
-
-/// Proprietary single-game protocols and Minecraft variants: the generic path
-/// and the game's own entry point, destination = the definition's port.
-macro_rules! c14_prop {
-    ($name:ident, $id:expr, $modcall:expr, $first:expr, $behaviour:expr) => {
-        #[cfg(kani)]
-        #[kani::proof]
-        #[kani::unwind(36)]
-        #[kani::stub(alloc::fmt::format, stub_format)]
-        #[kani::stub(core::str::from_utf8, stub_from_utf8)]
-        fn $name() {
-            let game = gamedig::GAMES.get($id);
-            assert!(game.is_some());
-            let game = game.unwrap();
-            let ip = any_addr_v4().ip();
-            let port: Option<u16> = kani::any();
-            let junk: [u8; 2] = kani::any();
-            let dest = SocketAddr::new(ip, port.unwrap_or(game.default_port));
-            arm_simple($behaviour, junk);
-            let g = out_of(gamedig::games::query::query(game, &ip, port));
-            assert!(all_to(&g, &dest, $first), "generic path does not go to the definition's default port with the protocol's request");
-            arm_simple($behaviour, junk);
-            let m = out_of(($modcall)(&ip, port));
-            assert!(same(&m, &g), "module path differs from the generic path");
-            kani::cover!(port.is_none(), "default port used");
-            core::mem::forget((g, m));
-        }
-    };
-}
-
-fn mc_legacy16_mod(ip: &IpAddr, port: Option<u16>) -> gamedig::GDResult<minecraft::JavaResponse> {
-    minecraft::query_legacy_specific(LegacyGroup::V1_6, ip, port)
-}
-fn mc_legacy14_mod(ip: &IpAddr, port: Option<u16>) -> gamedig::GDResult<minecraft::JavaResponse> {
-    minecraft::query_legacy_specific(LegacyGroup::V1_4, ip, port)
-}
-fn mc_legacyb18_mod(ip: &IpAddr, port: Option<u16>) -> gamedig::GDResult<minecraft::JavaResponse> {
-    minecraft::query_legacy_specific(LegacyGroup::VB1_8, ip, port)
-}
-fn mindustry_mod(ip: &IpAddr, port: Option<u16>) -> gamedig::GDResult<gamedig::games::mindustry::types::ServerData> {
-    gamedig::games::mindustry::query(ip, port, &None)
 }
 
 #[path = "generated/c14_games.rs"]
